@@ -156,10 +156,30 @@ def register(reg, prog):
                      ('request-to-process_request', z3.Implies(ex.truth(s, ex.spec_val(s, '1 <= msg.code < 32', env=env)),
                                                                z3.BoolVal(any(e[0] == 'tm_process_request' for e in s.log) and not any(e[0] == 'tm_process_response' for e in s.log)))),
                  ])
-    reg.contract('aiocoap.transports.tcp:_TCPPooling._dispatch_error', self_class='TCPPool', verify=False, properties=P,
-                 params={'connection': Ref('TcpConnection'), 'exc': Opt(Ref('builtins:Exception'))},
-                 ghost=lg('dispatch_error', 'connection', 'exc'),
-                 trusted_reason='pool bookkeeping (_evict_from_pool, set operations) is outside the property; only the call is recorded')
+    # _evict_from_pool is defined by the two pool classes (server: a set, client: a dict by host/port); whether the connection
+    # was (still) in the pool is unknown here -- errors arrive twice, and a client connection that lost the race for its
+    # (host, port) slot is never in the pool at all -- so its outcome is arbitrary
+    def evict(ex, st, args, kw, node):
+        st.log.append(('evict', args[-1]))
+        return [(st, ex.fresh_val(st, BOOL, 'was_in_pool'))]
+    reg.externals['attr:TCPPool._evict_from_pool'] = lambda ex, st, base, node: [(st, VFunc('ext', name='TCPPool._evict_from_pool', bound=base))]
+    reg.externals['TCPPool._evict_from_pool'] = evict
+    reg.externals['TokenManagerI.dispatch_error'] = lambda ex, st, args, kw, node: (st.log.append(('tm_dispatch_error',) + tuple(args)), [(st, VNone())])[1]
+
+    def derr_exit(ex, s, entry, env, result):
+        ev = Ev(ex, s, entry, env) if 'Ev' in globals() else None
+        up = ex.truth(s, ex.spec_val(s, 'old(self._tokenmanager) is not None', env=env, old_st=entry))
+        errs = [e for e in s.log if e[0] == 'tm_dispatch_error']
+        g = [('the-connection-leaves-the-pool', z3.BoolVal(len([e for e in s.log if e[0] == 'evict']) == 1)),
+             ('every-error-reaches-the-token-manager-whatever-the-pool-says', z3.Implies(up, z3.BoolVal(len(errs) == 1))),
+             ('nothing-is-dispatched-after-shutdown', z3.Implies(z3.Not(up), z3.BoolVal(len(errs) == 0)))]
+        for e in errs:
+            g.append(('for-this-connection-with-this-error', z3.And(e[-1].t == env['connection'].t,
+                                                                   ex.truth(s, ex.spec_val(s, 'x is exc', env=dict(env, x=e[-2]))) if True else z3.BoolVal(True))))
+        return g
+    reg.contract('aiocoap.transports.tcp:_TCPPooling._dispatch_error', self_class='TCPPool', properties=P,
+                 params={'connection': Ref('TcpConnection'), 'exc': Opt(Ref('builtins:Exception'))}, only_raises=True,
+                 ghost=lg('dispatch_error', 'connection', 'exc'), at_exit=derr_exit, modifies=[])
 
     def since_head(s):
         snap = s.ghost.get('$head')
